@@ -37,6 +37,11 @@ CLAIMED = {
    note="Trusted: ring layer over fr.Element; math/big.NewInt and Element.Exp interpreted (uninterpreted power); fft.Generator opaque (captured). Preconditions: non-empty vectors for Eval/Sum; GetCoeff for 0 <= shift <= 2^20. Not under contract: Lagrange-basis and bit-reversed evaluation, FFT-based conversions, ratios, quotient, expressions, serialisation, InterpolateOnRange, MultiLin.Evaluate/Eq. Two defects found and repaired (Evaluate ignored shifts outside 0..5; Add panicked on an empty destination).",
    technique="contract-based deductive verification: loop invariants with quantifiers and recursive SMT specification functions over symbolic coefficient arrays, identical-slice alias partitions, ghost capture of opaque callee arguments at call-site cut points",
    design="§10.4 C20"),
+ "C12": dict(
+   text="Deductive proof, for the ECDSA packages of 10 curves and the EdDSA packages of 8 twisted-Edwards curves, that the signature decoders accept exactly (ECDSA, both directions) / only (EdDSA) byte strings of the right length with 0 < r, s < n (EdDSA: 0 < y(R) < q after clearing the sign bit, 0 < S < order, R decoded and on the curve), and that the verifiers refuse on every decoding error and otherwise return exactly the textbook comparison: ECDSA [(x(U) mod n) == r] for U = JointScalarMultiplicationBase(A, m*s^-1 mod n, r*s^-1 mod n); EdDSA [cofactor][S]Base == [cofactor](R + [H]A) computed on exactly those operands in that order, key and both sides tested on the curve; recoverP accepts only 0 < r < n and sets x = r + n*bit1(v).",
+   note="Trusted: math/big modelled as mathematical integers (documented method meanings assumed; Mod/ModInverse/Exp/ModSqrt uninterpreted); fr.Modulus() = pinned modulus; scalar multiplication, point addition, on-curve tests, HashToInt and hash objects are opaque calls captured at call sites. Not under contract: completeness (honest signatures verify: needs C03), Sign/GenerateKey/nonce, key serialisation, the bytes hashed by EdDSA.",
+   technique="contract-based deductive verification: acceptance-implies-check / acceptance-iff clauses over a mathematical-integer model of math/big, byte-window values (be/le), ghost capture of opaque callee arguments and results at call-site cut points, callee contracts applied across compatible layers",
+   design="§10.4 C12"),
  "C13": dict(
    text="Deductive proof that expand_message_xmd is total (every slice/index/allocation is a discharged obligation for all messages, DSTs and lengths), returns exactly len_in_bytes bytes and returns an error exactly for inadmissible parameters (length outside 0..255*32, DST longer than 255 bytes); that Hash (hash_to_field) of all 23 fields is total, returns exactly count elements and refuses exactly the inadmissible parameters with L = 16 + ceil(bits/8) recomputed from the pinned modulus; and that the sgn0 / NotZero helpers of hash-to-curve of every curve return the parity of the integer denoted by the Montgomery representation (Fp2: of x0, or of x1 when x0 = 0) and the zero test.",
    note="Trusted: assumed contracts of hash.Hash for sha256.New; opaque big.Int conversions and pool; fp.Element.Bits through its C08 contract. Not under contract: which bytes are hashed (SHA-256 chain) and the reduction modulo q; MapToCurve (SvdW/SSWU), isogenies, cofactor clearing, HashToG*/EncodeToG*; RFC vectors. One defect found and repaired (ExpandMsgXmd panics for short, negative and huge lengths).",
@@ -76,7 +81,6 @@ NA = {
  "C09": "assembly bodies cannot be lowered by go/ssa; the portable Go variants are proved against the same contracts under C01 (both build configurations) but no differential harness for the assembly paths was built, so the property is not claimed",
  "C10": "equality with the DFT needs the Cooley-Tukey induction over a goroutine-split recursion; a recursive specification mirroring the code would restate the algorithm, not the property",
  "C11": "KZG verification reduces to the pairing-check relation (C05, not applicable) over MSM results (C04, not applicable); acceptance-implies-check contracts in the style of C17 were not written in the time available",
- "C12": "signature verifiers and byte decoders use math/big throughout; the big.Int model was not built, so no contract is claimed",
  "C18": "purity/repeatability needs inferred frames for every exported entry point and a treatment of goroutines; only the modifies clauses of the functions under contract are checked (reported under the respective properties), which does not carry the property",
 }
 
